@@ -20,7 +20,7 @@ TOKEN_RE = re.compile(r"""
   | (?P<number>0[xX][0-9a-fA-F]+|\d+\.?\d*(?:[eE][+-]?\d+)?|\.\d+(?:[eE][+-]?\d+)?)
   | (?P<lstring>\[(?P<seq>=*)\[.*?\](?P=seq)\])
   | (?P<string>"(?:[^"\\\n]|\\.|\\\n)*"|'(?:[^'\\\n]|\\.|\\\n)*')
-  | (?P<op>\.\.\.|\.\.|==|~=|<=|>=|::|[-+*/%^\#<>=(){}\[\];:,.])
+  | (?P<op>\.\.\.|\.\.|==|~=|<=|>=|::|//|<<|>>|[-+*/%^\#<>=(){}\[\];:,.&|~])
 """, re.X | re.S)
 
 
@@ -57,7 +57,8 @@ BINPRI = {
     "<": (3, 3), ">": (3, 3), "<=": (3, 3), ">=": (3, 3), "~=": (3, 3), "==": (3, 3),
     "..": (5, 4),
     "+": (6, 6), "-": (6, 6),
-    "*": (7, 7), "/": (7, 7), "%": (7, 7),
+    "*": (7, 7), "/": (7, 7), "%": (7, 7), "//": (7, 7),
+    "<<": (4, 4), ">>": (4, 4), "&": (3, 3), "|": (3, 3), "~": (3, 3),
     "^": (10, 9),
 }
 UNARY_PRI = 8
